@@ -56,6 +56,15 @@ type Nums struct {
 	B   bool
 }
 
+// Named scalar types (enumerations and the like are declared this way).
+type (
+	Port  uint16
+	Count int32
+	Flag  bool
+	Ratio float64
+	Label string
+)
+
 // PtrEmbed embeds a pointer to a struct.
 type PtrEmbed struct {
 	*Base
